@@ -56,6 +56,8 @@ def run(rep, idx, tier):
     _glue.single_pass_iterables(rep, "C20.8", idx)
     rep.require("C20.9", 1)
     _glue.textual_memo_keys(rep, "C20.9", idx)
+    rep.require("C20.10", 1)
+    _glue.ports_not_rebound(rep, "C20.10", idx)
     rep.require("C20.7", 15)
     _glue.forwarded_parameters(rep, "C20.7", idx, [c_.site.split("::")[0].replace(".py", "") + ":" + c_.qual for c_ in idx.all_classes()
                                                   if c_.method("__init__") is not None])
